@@ -66,6 +66,8 @@ def _multiindex(prop, case, f):
     names = _prog_index(f)
     if len(names) < 2:
         return False
+    if f.get("kind") == "index_names" and f.get("expected") != f.get("got") and sorted(map(str, f.get("expected") or [])) == sorted(map(str, f.get("got") or [])):
+        return False     # the right level names in another ORDER: nothing in this mechanism reorders levels
     return f.get("kind") in ("program_raised", "cells", "process_crash", "index_levels", "row_count", "dtype", "index_names")
 
 
